@@ -443,19 +443,48 @@ Theorem C11_hs_removed_is_silent :
 Proof. exact HSProofs.poll_silent. Qed.
 Print Assumptions C11_hs_removed_is_silent.
 
-(* Observation (reproduced with the real HandshakeService, corpus w14; outside the text of C11): remove_inbound /
-   remove_outbound do not purge `ready`, and is_empty() only looks at the map. When a completed handshake is
-   queued in `ready` and another substream of the same poll fails first, the handler removes both substreams,
-   the queued entry stays; if the peer's next substream of that direction is handed in before the service is
-   polled again (the biased select skips the service while the map is empty), pop_event matches the stale
-   entry with the NEW substream: Negotiated with the handshake of the old one, although nothing was read from
-   (or written to) the new one. *)
+(* Defect of the original code (reproduced with the real HandshakeService, corpus w14; it violates C12: finding
+   F-C12b, repaired in the repo): remove_inbound / remove_outbound did not purge `ready`, and is_empty() only looks
+   at the map. When a completed handshake is queued in `ready` and another substream of the same poll fails first,
+   the handler removes both substreams, the queued entry stays; the peer's next substream of that direction is
+   handed in before the service is polled again (the biased select skips the service while the map is empty), and
+   pop_event matches the stale entry with the NEW substream: Negotiated with the handshake of the old one, although
+   nothing was read from (or written to) the new one. HSModel.hrun0 is the original code. *)
 Theorem C11_hs_stale_ready_refuted :
-  map snd (HSModel.hrun HSModel.hs0 HSProofs.w_stale) =
+  map snd (HSModel.hrun0 HSModel.hs0 HSProofs.w_stale) =
   [HSModel.PPending; HSModel.PPending; HSModel.PPending; HSModel.PPending; HSModel.PErr 1;
    HSModel.PPending; HSModel.PPending; HSModel.PPending; HSModel.PNeg 0 true].
 Proof. exact HSProofs.stale_ready_run. Qed.
 Print Assumptions C11_hs_stale_ready_refuted.
+
+(* The repaired code on the same history: the new substream waits for its own handshake. *)
+Theorem C11_hs_stale_ready_repaired :
+  map snd (HSModel.hrun HSModel.hs0 HSProofs.w_stale) =
+  [HSModel.PPending; HSModel.PPending; HSModel.PPending; HSModel.PPending; HSModel.PErr 1;
+   HSModel.PPending; HSModel.PPending; HSModel.PPending; HSModel.PPending].
+Proof. exact HSProofs.stale_ready_repaired_run. Qed.
+Print Assumptions C11_hs_stale_ready_repaired.
+
+(* In general: every call of the owner (registering or removing a substream) forgets what was queued for that key ... *)
+Theorem C11_hs_calls_forget :
+  forall (h : HSModel.hs) (c : HSModel.hcall),
+    let k := match c with
+             | HSModel.NegOut p | HSModel.RemOut p => HSModel.mkkey p true
+             | HSModel.ReadIn p | HSModel.SendIn p | HSModel.RemIn p => HSModel.mkkey p false
+             end in
+    forall rd, ~ In (k, rd) (HSModel.ready (HSModel.call h c)).
+Proof. exact HSProofs.call_forgets. Qed.
+Print Assumptions C11_hs_calls_forget.
+
+(* ... so a removed substream is silent whatever was queued for it: the next poll reports nothing under its key. *)
+Theorem C11_hs_removed_stays_silent :
+  forall (h : HSModel.hs) (p : HSModel.peer) (out : bool) (ord : list HSModel.key) (h' : HSModel.hs),
+    (forall rd, HSModel.poll (HSModel.call h (if out then HSModel.RemOut p else HSModel.RemIn p)) ord <>
+                (h', HSModel.PNeg (HSModel.mkkey p out) rd)) /\
+    HSModel.poll (HSModel.call h (if out then HSModel.RemOut p else HSModel.RemIn p)) ord <>
+    (h', HSModel.PErr (HSModel.mkkey p out)).
+Proof. exact HSProofs.removed_is_silent. Qed.
+Print Assumptions C11_hs_removed_stays_silent.
 
 Example C11_parked_handler_resumes :
   map (fun x => (parked 1 (fst (fst x)), snd (fst x), snd x)) (fst (lrun cfg_w0 1 linit w_parked)) =
